@@ -5,3 +5,5 @@ import Theorems.Lemmas.Credit
 import Theorems.C07
 import Theorems.C08
 import Theorems.C09
+import Theorems.Lemmas.Frame
+import Theorems.C06
